@@ -335,7 +335,15 @@ class BDD(dd._abc.BDD[_Ref]):
             ) -> _Ref:
         """Return node `IF var THEN high ELSE low`."""
         level = self.level_of_var(var)
-        r = self._bdd.find_or_add(level, low.node, high.node)
+        # `level` would be stale after reordering,
+        # so disable reordering requests
+        last_len = self._bdd._last_len
+        self._bdd._last_len = None
+        try:
+            r = self._bdd.find_or_add(
+                level, low.node, high.node)
+        finally:
+            self._bdd._last_len = last_len
         return self._wrap(r)
 
     def count(
